@@ -35,6 +35,12 @@ CHECKS = {
         text="Rule-level formulation for relation trees of any depth: the inductive obligations (protected leaf never clean; clean output needs clean inputs except the PUP->DP reduce; Public needs Public; only Reduce makes DP) are decided by the solver over the extracted rule table for all 4 configurations; per tree, the solver shows no consistent labeling puts a clean label above a tainted protected leaf; the relations actually returned by rewrite_with_differential_privacy are walked structurally (every path to a protected table crosses an aggregation followed by a noise map). The last part is enumeration, stated as such.",
         note="Trusted: extraction through the public API; independent resolution of protected tables by declared path; noise map = Map with a Random function.",
         design="3 C02, 2.4"),
+    "C11": dict(
+        level="model_checking", engine="K (Kani) + M (MIR composition lemmas) + driver grid",
+        technique="Kani/CBMC proof harnesses over the compiled Intervals<i64> (inductive step from arbitrary valid states); SMT composition lemmas over the MIR of union/intersection/is_subset_of/contains with the leaf contracts Kani proves; SMT search for a value outside the result of the real lattice operations on a grid of type pairs",
+        text="Interval algebra: each leaf operation is proved by Kani for every valid pre-state of <= 2 intervals and every argument (sorted/disjoint/capacity invariant re-established, no point lost, exact below capacity, capacity crossing included); the composite operations are decided from their MIR for operands of up to 2 (thorough: 3) intervals. DataType level: for ~500 type pairs on a boundary grid the solver searches every value of the operands for one outside the real is_subset_of / super_union / super_intersection result (cross-variant membership through the MIR-translated injection kernels).",
+        note="Trusted: Kani/CBMC; MIR translation, combinator and contract stubs; grid of type pairs is enumeration (stated). Known findings: Struct::super_union with different field sets; literal `contains` for cross-variant pairs.",
+        design="3 C11, 2.2"),
 }
 
 NOT_APPLICABLE = {
@@ -52,7 +58,6 @@ NOT_YET = {
     "C08": "not built yet (stretch goal; two SQL front ends)",
     "C09": "not built yet",
     "C10": "not built yet",
-    "C11": "not built yet",
     "C14": "not built yet",
 }
 
